@@ -558,12 +558,17 @@ HTPcreate(filerec_t *file_rec, /* IN: File record to store info in */
 
     /* dd_ptr->blk should already be correctly set */
 
+    /* Mark off the ref # as 'used' in the tag tree & add to dynarray of refs */
+    /* (this is also where a tag/ref pair that exists already is detected: */
+    /*  give the DD slot back instead of leaving a duplicate descriptor) */
+    if (HTIregister_tag_ref(file_rec, dd_ptr) == FAIL) {
+        dd_ptr->tag = DFTAG_NULL;
+        dd_ptr->ref = DFREF_NONE;
+        HGOTO_ERROR(DFE_INTERNAL, FAIL);
+    }
+
     /* Update the disk, etc. */
     if (HTIupdate_dd(file_rec, dd_ptr) == FAIL)
-        HGOTO_ERROR(DFE_INTERNAL, FAIL);
-
-    /* Mark off the ref # as 'used' in the tag tree & add to dynarray of refs */
-    if (HTIregister_tag_ref(file_rec, dd_ptr) == FAIL)
         HGOTO_ERROR(DFE_INTERNAL, FAIL);
 
     /* Get the atom to return */
@@ -1904,12 +1909,14 @@ HTIregister_tag_ref(filerec_t *file_rec, dd_t *dd_ptr)
     tag_info  *tinfo_ptr;                        /* pointer to the info for a tag */
     tag_info **tip_ptr;                          /* ptr to the ptr to the info for a tag */
     uint16     base_tag  = BASETAG(dd_ptr->tag); /* the base tag for the tag tree */
+    int        new_tag   = FALSE;                /* whether the tag's info was created by this call */
     int        ret_value = SUCCEED;
 
     HEclear();
     /* Add to the tag info tree */
     if ((tip_ptr = (tag_info **)tbbtdfind(file_rec->tag_tree, (void *)&base_tag, NULL)) ==
         NULL) { /* a new tag was found */
+        new_tag = TRUE;
         if ((tinfo_ptr = (tag_info *)calloc(1, sizeof(tag_info))) == NULL)
             HGOTO_ERROR(DFE_NOSPACE, FAIL);
         tinfo_ptr->tag = base_tag;
@@ -1950,8 +1957,12 @@ HTIregister_tag_ref(filerec_t *file_rec, dd_t *dd_ptr)
 done:
     if (ret_value == FAIL) { /* Error condition cleanup */
 
-        if ((tinfo_ptr != NULL) && (tinfo_ptr->d != NULL))
+        /* only a ref table created by this call may go; the table of an existing
+         * tag still describes that tag's other objects */
+        if (new_tag && (tinfo_ptr != NULL) && (tinfo_ptr->d != NULL)) {
             DAdestroy_array(tinfo_ptr->d, 0);
+            tinfo_ptr->d = NULL;
+        }
     }
 
     return ret_value;
